@@ -20,17 +20,19 @@ ASSUMPTIONS = ['TransportTCP and the QUIC transport only (connection loss must b
 BUDGET_S = {'quick': 300, 'thorough': 3600}
 
 PERIOD, LIFE = 0.5, 1.0
+SRV_BODY = bytes(range(65, 91)) * 6  # 156 bytes: three fragments at the servers' fragment size of 64
 
 
 class Reconnect(Scenario):
-    def __init__(self, cause, trigger, rounds=1, alts=(), modes=('Q',), lease=False, flavour='tcp', gate=False, channel=False, slow_close=False):
+    def __init__(self, cause, trigger, rounds=1, alts=(), modes=('Q',), lease=False, flavour='tcp', gate=False, channel=False, slow_close=False, srv_req=False):
         self.name = 'reconnect'
         self.cause, self.trigger, self.rounds, self.lease = cause, trigger, rounds, lease
         self.flavour = flavour
         self.slow_close = slow_close  # the application's on_close keeps awaiting (clean-up work) after asking for the reconnect
         self.channel = channel  # a channel whose local publisher still has credit is open when the connection ends
+        self.srv_req = srv_req  # every server sends the client a fragmented request of its own (stream id 2 on each connection)
         self.gate = gate  # connect() of every later transport suspends until the explorer lets it finish
-        self.params = {'cause': cause, 'trigger': trigger, 'rounds': rounds, 'alts': list(alts), 'modes': list(modes), 'lease': lease, 'flavour': flavour, 'gate': gate, 'channel': channel, 'slow_close': slow_close}
+        self.params = {'cause': cause, 'trigger': trigger, 'rounds': rounds, 'alts': list(alts), 'modes': list(modes), 'lease': lease, 'flavour': flavour, 'gate': gate, 'channel': channel, 'slow_close': slow_close, 'srv_req': srv_req}
         self.world_kw = {'alts': alts, 'modes': modes, 'fault_budget': rounds if cause != 'healthy' else 0, 'horizon': 2.0 * rounds + 1.6, 'step_cap': 900}
 
     def setup(self, w):
@@ -56,6 +58,8 @@ class Reconnect(Scenario):
                 # the first server never grants a lease (requests stay parked in the client); later servers grant 5 requests
                 from rsocket.lease import SingleLeasePublisher, LeasePublisher
                 start_server(w, c, s_beh(i), lease_publisher=LeasePublisher() if i == 0 else SingleLeasePublisher(maximum_request_count=5))
+            elif self.srv_req:
+                start_server(w, c, s_beh(i), fragment_size_bytes=64)
             else:
                 start_server(w, c, s_beh(i))
         trig = self.trigger
@@ -94,7 +98,10 @@ class Reconnect(Scenario):
                 w.logev(('reconnect-requested', 'on_timeout'))
                 return rsocket.reconnect()
 
-        client = start_client(w, conns, {'on_close': on_close, 'on_keepalive_timeout': on_timeout},
+        c_beh = {'on_close': on_close, 'on_keepalive_timeout': on_timeout}
+        if self.srv_req:
+            c_beh['request_response'] = lambda h, p: create_future(P(b'CR:' + bytes(p.data or b'')))
+        client = start_client(w, conns, c_beh,
                               keep_alive_period=timedelta(seconds=PERIOD), max_lifetime_period=timedelta(seconds=LIFE), honor_lease=self.lease)
         w.objs['client'] = client
         w.fault_kinds = (self.cause,) if self.cause != 'healthy' else ()
@@ -129,6 +136,14 @@ class Reconnect(Scenario):
 
             steps = [Step('reconnect%d' % k, rec, guard=lambda w, k=k: self._connected_round(w) >= k) for k in range(self.rounds)]
             w.add_actor('rc', steps)
+
+        if self.srv_req:
+            def srv_request(w, i):
+                st['srv%d' % i] = watch_future(w, 's', 'srvreq%d' % i, conns[i].server.request_response(P(SRV_BODY + b'%d' % i)))
+
+            w.add_actor('srvreq', [Step('srvreq%d' % i, lambda w, i=i: srv_request(w, i),
+                                        guard=lambda w, i=i: any(ev[0] == 'rx' and ev[1] == conns[i].sname and ev[2].type == R.SETUP for ev in w.log))
+                                   for i in range(self.rounds + 1)])
 
         def probe(w, k):
             st['probe%d' % k] = watch_future(w, 'c', 'probe%d' % k, client.request_response(P(b'probe%d' % k)))
@@ -189,6 +204,12 @@ class Reconnect(Scenario):
                 if pr['state'] != 'result' or pr['value'] != (b'R:probe%d' % (k + 1), b''):
                     out.append(('C17.requests-served-after-reconnect', 'C17.requests-served-after-reconnect | %s | %s' % (ctx, pr['state']),
                                 'probe issued after reconnect %d ended as %s %s' % (k + 1, pr['state'], pr['value'])))
+            # the new server's own (fragmented) request - the same stream id as the previous server's - is served by the client
+            sr = st.get('srv%d' % (k + 1))
+            if sr is not None and k + 1 >= min(n_req, self.rounds) and not any(ev[0] in ('eof', 'rst', 'mute') and ev[1] in (new.cname, new.sname) for ev in log):
+                if sr['state'] != 'result' or sr['value'] != (b'CR:' + SRV_BODY + b'%d' % (k + 1), b''):
+                    out.append(('C17.requests-served-after-reconnect', 'C17.requests-served-after-reconnect | %s | server-request | %s' % (ctx, sr['state']),
+                                'the request of server %d to the client ended as %s %s' % (k + 1, sr['state'], str(sr['value'])[:120])))
             # requests pending on the old transport are failed
             if k == 0:
                 issued = next((i for i, ev in enumerate(log) if ev[0] == 'act' and ev[1] == 'req'), None)
@@ -252,7 +273,7 @@ def make_units(tier):
         K = 8
         for k in range(K):
             units.append({'cause': cause, 'trigger': trig, 'rounds': 1, 'bound': 1 if cause != 'healthy' else 1, 'shard': [k, K], 'alts': []})
-        if tier == 'thorough' or (cause, trig) in (('eof', 'on_close'), ('mute', 'on_timeout'), ('healthy', 'free')):
+        if tier == 'thorough' or (cause, trig) in (('eof', 'on_close'), ('wr', 'on_close'), ('mute', 'on_timeout'), ('healthy', 'free')):
             K = 16
             for k in range(K):
                 units.append({'cause': cause, 'trigger': trig, 'rounds': 2, 'bound': 2, 'shard': [k, K], 'alts': []})
@@ -278,6 +299,11 @@ def make_units(tier):
         K = 4
         for k in range(K):
             units.append({'cause': cause, 'trigger': trig, 'rounds': 1, 'bound': 1, 'shard': [k, K], 'alts': [], 'channel': True})
+    # every server sends the client a fragmented request; the connection may end between its fragments
+    for cause, trig in COMBOS:
+        K = 4
+        for k in range(K):
+            units.append({'cause': cause, 'trigger': trig, 'rounds': 1, 'bound': 1, 'shard': [k, K], 'alts': [], 'srv_req': True})
     # the QUIC transport (the other one that reports a lost connection); eof and rst are the same event there
     for cause, trig in COMBOS:
         if cause == 'eof':
@@ -298,7 +324,7 @@ def bounds(tier):
 
 
 def scenario_of(unit):
-    return Reconnect(unit['cause'], unit['trigger'], unit['rounds'], alts=tuple(unit['alts']), lease=unit.get('lease', False), flavour=unit.get('flavour', 'tcp'), gate=unit.get('gate', False), channel=unit.get('channel', False), slow_close=unit.get('slow_close', False))
+    return Reconnect(unit['cause'], unit['trigger'], unit['rounds'], alts=tuple(unit['alts']), lease=unit.get('lease', False), flavour=unit.get('flavour', 'tcp'), gate=unit.get('gate', False), channel=unit.get('channel', False), slow_close=unit.get('slow_close', False), srv_req=unit.get('srv_req', False))
 
 
 def run_unit(unit, part):
@@ -306,7 +332,7 @@ def run_unit(unit, part):
 
 
 def scenario_from(name, params):
-    return Reconnect(params['cause'], params['trigger'], params['rounds'], tuple(params['alts']), tuple(params['modes']), params.get('lease', False), params.get('flavour', 'tcp'), params.get('gate', False), params.get('channel', False), params.get('slow_close', False))
+    return Reconnect(params['cause'], params['trigger'], params['rounds'], tuple(params['alts']), tuple(params['modes']), params.get('lease', False), params.get('flavour', 'tcp'), params.get('gate', False), params.get('channel', False), params.get('slow_close', False), params.get('srv_req', False))
 
 
 def replay(rec):
